@@ -472,8 +472,11 @@ func (f ForkId) Match(ref map[*syntax.CallStm]syntax.CollectionIndex,
 							Source: src,
 						},
 					}
-					if src.CallMode() != result[i].Id.Mode() {
+					if m := result[i].Id.Mode(); src.CallMode() != m &&
+						m != syntax.ModeNullMapCall {
 						// Should not be possible - checked during static analysis.
+						// (A null collection, found at run time, matches either
+						// kind of call.)
 						panic(result[i].GoString() + " from " + j.Mode().String())
 					}
 				} else {
